@@ -140,3 +140,151 @@ def move_edge(G, r, tries=40):
             G.add_edge(u, v)
             return True
     return False
+
+
+_AGED = [False]
+
+
+def long_session(ctx=None, calls=1100):
+    """An earlier life of the process: before the first case of a worker, some 1100 rounds of ordinary library use on
+    distinct small inputs -- graphs of the three kinds built, normalised, converted from networkx, written and read
+    back; formulas of every family; transformations; exports and imports; command lines -- with the objects dropped
+    and collected in between (so that ids and addresses get reused).  For a library whose results depend on the
+    arguments of the call only this is a no-op; a counter that wraps, a table that fills up, a memo keyed on id() or
+    the n-th call of anything taking another path would show in every comparison made afterwards.  Runs once per
+    worker (about two seconds); leaves the global random generator as it found it."""
+    if _AGED[0]:
+        return 0
+    _AGED[0] = True
+    import gc
+    import io
+    import warnings
+    import networkx
+    import cnfgen as c
+    import cnfgen.graphs as g
+    from cnfgen.formula.cnf import CNF
+    from cnfgen.formula.opb import OPB
+    r = random.Random("an earlier life")
+    state = random.getstate()
+    done = 0
+
+    def attempt(fn, *a, **kw):
+        nonlocal done
+        try:
+            out = fn(*a, **kw)
+            done += 1
+            return out
+        except Exception:       # noqa: BLE001 - the earlier caller's own failures are its own business
+            return None
+    try:
+        with warnings.catch_warnings():
+            warnings.simplefilter("ignore")
+            for i in range(calls):
+                n = 2 + i % 7
+                # --- graphs
+                G = g.Graph(n, name="earlier %d" % i)
+                for _ in range(n):
+                    u, v = r.sample(range(1, n + 1), 2)
+                    G.add_edge(u, v)
+                B = g.BipartiteGraph(1 + i % 4, 1 + (i // 4) % 4)
+                for _ in range(4):
+                    B.add_edge(r.randint(1, B.left_order()), r.randint(1, B.right_order()))
+                D = g.DirectedGraph(n)
+                for _ in range(n):
+                    u, v = sorted(r.sample(range(1, n + 1), 2))
+                    D.add_edge(u, v)
+                if i % 4 == 0:
+                    X = networkx.gnm_random_graph(n, n, seed=i)
+                    attempt(g.Graph.normalize, X)
+                    attempt(g.Graph.from_networkx, X)
+                if i % 5 == 0:
+                    for H, kind, fmt in ((G, "simple", "kthlist"), (G, "simple", "dimacs"), (G, "simple", "gml"), (D, "dag", "kthlist"),
+                                         (B, "bipartite", "matrix"), (B, "bipartite", "kthlist")):
+                        buf = io.StringIO()
+                        if attempt(g.writeGraph, H, buf, kind, fmt) is not None or buf.getvalue():
+                            attempt(g.readGraph, io.StringIO(buf.getvalue()), kind, fmt)
+                # --- formulas of the families (small parameters, all distinct over a while)
+                K = CNF if i % 2 else OPB
+                fam = i % 20
+                F = None
+                if fam == 0:
+                    F = attempt(c.PigeonholePrinciple, 1 + i % 5, 1 + (i // 5) % 4, functional=bool(i & 8), onto=bool(i & 16), formula_class=K)
+                elif fam == 1:
+                    F = attempt(c.GraphPigeonholePrinciple, B, formula_class=K)
+                elif fam == 2:
+                    F = attempt(c.TseitinFormula, G, formula_class=K)
+                elif fam == 3:
+                    F = attempt(c.GraphColoringFormula, G, 2 + i % 3, formula_class=K)
+                elif fam == 4:
+                    F = attempt(c.DominatingSet, G, 1 + i % 3, formula_class=K)
+                elif fam == 5:
+                    F = attempt(c.OrderingPrinciple, 2 + i % 4, total=bool(i & 32), formula_class=K)
+                elif fam == 6:
+                    F = attempt(c.GraphOrderingPrinciple, G, formula_class=K)
+                elif fam == 7:
+                    F = attempt(c.PebblingFormula, D, formula_class=K)
+                elif fam == 8:
+                    F = attempt(c.StoneFormula, D, 1 + i % 3, formula_class=K)
+                elif fam == 9:
+                    F = attempt(c.PerfectMatchingPrinciple, G, formula_class=K)
+                elif fam == 10:
+                    F = attempt(c.SubsetCardinalityFormula, B, formula_class=K)
+                elif fam == 11:
+                    F = attempt(c.CountingPrinciple, 3 + i % 4, 2, formula_class=K)
+                elif fam == 12:
+                    F = attempt(c.RandomKCNF, 2, 4 + i % 5, 3 + i % 4, seed=i)
+                elif fam == 13:
+                    F = attempt(c.RandomKXOR, 2, 4 + i % 5, 2 + i % 3, seed=i)
+                elif fam == 14:
+                    F = attempt(c.RamseyNumber, 3, 3, 3 + i % 3, formula_class=K)
+                elif fam == 15:
+                    F = attempt(c.VanDerWaerden, 4 + i % 4, 2, 3, formula_class=K)
+                elif fam == 16:
+                    F = attempt(c.CliqueFormula, G, 2 + i % 2, formula_class=K)
+                elif fam == 17:
+                    F = attempt(c.BinaryPigeonholePrinciple, 1 + i % 4, 1 + i % 5, formula_class=K)
+                elif fam == 18:
+                    F = attempt(c.Tiling, G, formula_class=K)
+                else:
+                    F = attempt(c.PythagoreanTriples, 3 + i % 20, formula_class=K)
+                # --- hand-made formulas, constraint builders, exports and imports
+                H = CNF()
+                for j in range(1 + i % 4):
+                    H.new_variable("v%d_%d" % (i, j))
+                blk = H.new_block(1 + i % 2, 2)
+                H.add_clause([1, -blk(1, 2)])
+                H.add_linear([1, blk(1, 1), -blk(1, 2)], r.choice(["<=", ">=", "==", "!="]), 1)
+                H.add_parity([1, blk(1, 1)], i % 2)
+                text = attempt(H.to_dimacs)
+                if text:
+                    attempt(CNF.from_file, io.StringIO(text))
+                if i % 3 == 0:
+                    attempt(H.to_opb)
+                if i % 7 == 0:
+                    attempt(H.to_latex)
+                P = OPB()
+                P.update_variable_number(3)
+                attempt(P.add_constraint, [(1 + i % 3, 1), (1, -2), (2, 3), r.choice([">=", "=="]), 1 + i % 2])
+                attempt(P.to_opb)
+                # --- transformations
+                T = H
+                for _ in range(1 + i % 2):
+                    t = (i + _) % 9
+                    T2 = attempt([lambda X: c.Shuffle(X), lambda X: c.XorSubstitution(X, 2), lambda X: c.OrSubstitution(X, 2),
+                                  lambda X: c.FlipPolarity(X), lambda X: c.FormulaLifting(X, 1), lambda X: c.MajoritySubstitution(X, 3),
+                                  lambda X: c.ExactlyOneSubstitution(X, 2), lambda X: c.IfThenElseSubstitution(X),
+                                  lambda X: c.Shuffle(X, "fixed", "shuffle", "fixed")][t], T)
+                    T = T2 if T2 is not None and len(T2) < 200 else T
+                # --- the command line as a function
+                if i % 110 == 0:
+                    from cnfgen.clitools.cnfgen import cli
+                    attempt(cli, ["cnfgen", "-q", "php", str(2 + i % 3), "2", "-T", "shuffle"], mode="formula")
+                    attempt(cli, ["cnfgen", "-q", "kcolor", "2", "gnp", "4", ".5"], mode="formula")
+                del G, B, D, F, H, P, T
+                if i % 50 == 49:
+                    gc.collect()
+    finally:
+        random.setstate(state)
+    if ctx is not None:
+        ctx.count("calls_of_the_earlier_life_of_the_process", done)
+    return done
